@@ -370,7 +370,7 @@ pub fn run(cfg: RunCfg) {
         "remove is only issued for keys the store currently lists or has an unacknowledged write for (as prune / clean-up / the failed-write path do)".into(),
     ];
     vh_core::section!(
-        rep, "history", (6_000, 300_000), 16,
+        rep, "history", (18_000, 300_000), 16,
         "non-trivial: (overwrite or remove of a listed key) and (an ack delivered out of issue order or delayed past a later op); distinct by whole history",
         case_strategy, check
     );
